@@ -18,8 +18,9 @@ SPECS = [
     ("scmMaxBytesOut", "command/src/scm_socket.rs", r"pub const MAX_BYTES_OUT: usize = ([^;]+);", "manifest receive buffer"),
     ("sessAcceptBase", "lib/src/server.rs", r"let threshold = (\d+) \+ \d+ \* self\.max_connections;", "accept_slab_threshold: base"),
     ("sessAcceptFactor", "lib/src/server.rs", r"let threshold = \d+ \+ (\d+) \* self\.max_connections;", "accept_slab_threshold: factor"),
-    ("sessResumeNum", "lib/src/server.rs", r"self\.nb_connections < self\.max_connections \* (\d+) / \d+", "decr hysteresis numerator"),
-    ("sessResumeDen", "lib/src/server.rs", r"self\.nb_connections < self\.max_connections \* \d+ / (\d+)", "decr hysteresis denominator"),
+    ("sessResumeNum", "lib/src/server.rs", r"self\.nb_connections < \(?self\.max_connections \* (\d+) / \d+", "decr hysteresis numerator"),
+    ("sessResumeDen", "lib/src/server.rs", r"self\.nb_connections < \(?self\.max_connections \* \d+ / (\d+)", "decr hysteresis denominator"),
+    ("sessResumeFloor", "lib/src/server.rs", r"self\.nb_connections < \(self\.max_connections \* \d+ / \d+\)\.max\((\d+)\)", "decr hysteresis floor: an idle manager always re-opens the gate"),
     ("h2FrameHeaderSize", "lib/src/protocol/mux/parser.rs", r"pub const FRAME_HEADER_SIZE: usize = ([^;]+);", ""),
     ("h2StreamIdMask", "lib/src/protocol/mux/parser.rs", r"pub const STREAM_ID_MASK: u32 = ([^;]+);", ""),
     ("h2PriorityPayloadSize", "lib/src/protocol/mux/parser.rs", r"pub const PRIORITY_PAYLOAD_SIZE: u32 = ([^;]+);", ""),
@@ -47,6 +48,53 @@ SPECS = [
     ("h2DefaultMaxEmptyDataPerWindow", "lib/src/protocol/mux/h2.rs", r"\nconst DEFAULT_MAX_EMPTY_DATA_PER_WINDOW: u32 = ([^;]+);", ""),
     ("h2DefaultMaxContinuationFrames", "lib/src/protocol/mux/h2.rs", r"\nconst DEFAULT_MAX_CONTINUATION_FRAMES: u32 = ([^;]+);", ""),
     ("h2DefaultMaxGlitchCount", "lib/src/protocol/mux/h2.rs", r"\nconst DEFAULT_MAX_GLITCH_COUNT: u32 = ([^;]+);", ""),
+    # --- H2Wire (C15) ---
+    ("h2FlagAck", "lib/src/protocol/mux/parser.rs", r"pub const FLAG_ACK: u8 = ([^;]+);", ""),
+    ("h2SettingsCount", "lib/src/protocol/mux/parser.rs", r"pub const SETTINGS_COUNT: u32 = ([^;]+);", ""),
+    ("h2SettingsIdHeaderTableSize", "lib/src/protocol/mux/parser.rs", r"pub const SETTINGS_HEADER_TABLE_SIZE: u16 = ([^;]+);", ""),
+    ("h2SettingsIdEnablePush", "lib/src/protocol/mux/parser.rs", r"pub const SETTINGS_ENABLE_PUSH: u16 = ([^;]+);", ""),
+    ("h2SettingsIdMaxConcurrentStreams", "lib/src/protocol/mux/parser.rs", r"pub const SETTINGS_MAX_CONCURRENT_STREAMS: u16 = ([^;]+);", ""),
+    ("h2SettingsIdInitialWindowSize", "lib/src/protocol/mux/parser.rs", r"pub const SETTINGS_INITIAL_WINDOW_SIZE: u16 = ([^;]+);", ""),
+    ("h2SettingsIdMaxFrameSize", "lib/src/protocol/mux/parser.rs", r"pub const SETTINGS_MAX_FRAME_SIZE: u16 = ([^;]+);", ""),
+    ("h2SettingsIdMaxHeaderListSize", "lib/src/protocol/mux/parser.rs", r"pub const SETTINGS_MAX_HEADER_LIST_SIZE: u16 = ([^;]+);", ""),
+    ("h2SettingsIdEnableConnectProtocol", "lib/src/protocol/mux/parser.rs", r"pub const SETTINGS_ENABLE_CONNECT_PROTOCOL: u16 = ([^;]+);", ""),
+    ("h2SettingsIdNoRfc7540Priorities", "lib/src/protocol/mux/parser.rs", r"pub const SETTINGS_NO_RFC7540_PRIORITIES: u16 = ([^;]+);", ""),
+    ("h2TypeByteData", "lib/src/protocol/mux/parser.rs", r"\n\s+(\w+) => FrameType::Data,", "convert_frame_type arm"),
+    ("h2SerTypeByteData", "lib/src/protocol/mux/serializer.rs", r"\n\s+FrameType::Data => (\w+),", "serialize_frame_type arm"),
+    ("h2TypeByteHeaders", "lib/src/protocol/mux/parser.rs", r"\n\s+(\w+) => FrameType::Headers,", "convert_frame_type arm"),
+    ("h2SerTypeByteHeaders", "lib/src/protocol/mux/serializer.rs", r"\n\s+FrameType::Headers => (\w+),", "serialize_frame_type arm"),
+    ("h2TypeBytePriority", "lib/src/protocol/mux/parser.rs", r"\n\s+(\w+) => FrameType::Priority,", "convert_frame_type arm"),
+    ("h2SerTypeBytePriority", "lib/src/protocol/mux/serializer.rs", r"\n\s+FrameType::Priority => (\w+),", "serialize_frame_type arm"),
+    ("h2TypeByteRstStream", "lib/src/protocol/mux/parser.rs", r"\n\s+(\w+) => FrameType::RstStream,", "convert_frame_type arm"),
+    ("h2SerTypeByteRstStream", "lib/src/protocol/mux/serializer.rs", r"\n\s+FrameType::RstStream => (\w+),", "serialize_frame_type arm"),
+    ("h2TypeByteSettings", "lib/src/protocol/mux/parser.rs", r"\n\s+(\w+) => FrameType::Settings,", "convert_frame_type arm"),
+    ("h2SerTypeByteSettings", "lib/src/protocol/mux/serializer.rs", r"\n\s+FrameType::Settings => (\w+),", "serialize_frame_type arm"),
+    ("h2TypeBytePushPromise", "lib/src/protocol/mux/parser.rs", r"\n\s+(\w+) => FrameType::PushPromise,", "convert_frame_type arm"),
+    ("h2SerTypeBytePushPromise", "lib/src/protocol/mux/serializer.rs", r"\n\s+FrameType::PushPromise => (\w+),", "serialize_frame_type arm"),
+    ("h2TypeBytePing", "lib/src/protocol/mux/parser.rs", r"\n\s+(\w+) => FrameType::Ping,", "convert_frame_type arm"),
+    ("h2SerTypeBytePing", "lib/src/protocol/mux/serializer.rs", r"\n\s+FrameType::Ping => (\w+),", "serialize_frame_type arm"),
+    ("h2TypeByteGoAway", "lib/src/protocol/mux/parser.rs", r"\n\s+(\w+) => FrameType::GoAway,", "convert_frame_type arm"),
+    ("h2SerTypeByteGoAway", "lib/src/protocol/mux/serializer.rs", r"\n\s+FrameType::GoAway => (\w+),", "serialize_frame_type arm"),
+    ("h2TypeByteWindowUpdate", "lib/src/protocol/mux/parser.rs", r"\n\s+(\w+) => FrameType::WindowUpdate,", "convert_frame_type arm"),
+    ("h2SerTypeByteWindowUpdate", "lib/src/protocol/mux/serializer.rs", r"\n\s+FrameType::WindowUpdate => (\w+),", "serialize_frame_type arm"),
+    ("h2TypeByteContinuation", "lib/src/protocol/mux/parser.rs", r"\n\s+(\w+) => FrameType::Continuation,", "convert_frame_type arm"),
+    ("h2SerTypeByteContinuation", "lib/src/protocol/mux/serializer.rs", r"\n\s+FrameType::Continuation => (\w+),", "serialize_frame_type arm"),
+    ("h2TypeBytePriorityUpdate", "lib/src/protocol/mux/parser.rs", r"\n\s+(\w+) => FrameType::PriorityUpdate,", "convert_frame_type arm"),
+    ("h2SerTypeBytePriorityUpdate", "lib/src/protocol/mux/serializer.rs", r"\n\s+FrameType::PriorityUpdate => (\w+),", "serialize_frame_type arm"),
+    ("h2DefaultMaxWindowUpdateStream0PerWindow", "lib/src/protocol/mux/h2.rs", r"\nconst DEFAULT_MAX_WINDOW_UPDATE_STREAM0_PER_WINDOW: u32 = ([^;]+);", ""),
+    ("h2DefaultMaxRstStreamLifetime", "lib/src/protocol/mux/h2.rs", r"const DEFAULT_MAX_RST_STREAM_LIFETIME: u64 = ([^;]+);", ""),
+    ("h2DefaultMaxRstStreamAbusiveLifetime", "lib/src/protocol/mux/h2.rs", r"const DEFAULT_MAX_RST_STREAM_ABUSIVE_LIFETIME: u64 = ([^;]+);", ""),
+    ("h2DefaultMaxRstStreamEmittedLifetime", "lib/src/protocol/mux/h2.rs", r"const DEFAULT_MAX_RST_STREAM_EMITTED_LIFETIME: u64 = ([^;]+);", ""),
+    ("h2DefaultMaxPingLifetime", "lib/src/protocol/mux/h2.rs", r"\nconst DEFAULT_MAX_PING_LIFETIME: u32 = ([^;]+);", ""),
+    ("h2DefaultMaxSettingsLifetime", "lib/src/protocol/mux/h2.rs", r"\nconst DEFAULT_MAX_SETTINGS_LIFETIME: u32 = ([^;]+);", ""),
+    ("h2MaxHeaderListSize", "lib/src/protocol/mux/h2.rs", r"const MAX_HEADER_LIST_SIZE: usize = ([^;]+);", ""),
+    ("h2FloodWindowSecs", "lib/src/protocol/mux/h2.rs", r"const FLOOD_WINDOW_DURATION: std::time::Duration = std::time::Duration::from_secs\((\d+)\);", "flood window (seconds)"),
+    ("chanDefaultBufferSize", "command/src/config.rs", r"pub const DEFAULT_COMMAND_BUFFER_SIZE: u64 = ([^;]+);", "default command channel buffer size"),
+    ("chanDefaultMaxBufferSize", "command/src/config.rs", r"pub const DEFAULT_MAX_COMMAND_BUFFER_SIZE: u64 = ([^;]+);", "default command channel buffer ceiling"),
+    ("chanConsumeShiftDiv", "command/src/buffer/growable.rs", r"if self\.position > self\.capacity / (\d+) \{", "Buffer::consume shifts when position > capacity / this"),
+    ("chanShrinkFactor", "command/src/channel.rs", r"self\.front_buf\.available_data\(\) \* (\d+) < self\.initial_buffer_size", "front buffer shrinks when data * this < initial size"),
+    ("chanGrowFactor", "command/src/channel.rs", r"current_capacity\.saturating_mul\((\d+)\)", "grow_size doubling factor"),
+    ("chanWriteGrowFactor", "command/src/channel.rs", r"new_length\.saturating_mul\((\d+)\)", "write_delimited_message doubling factor"),
 ]
 
 # byte tables: (lean name, file, regex with ONE group = comma-separated byte list)
@@ -54,6 +102,7 @@ BYTE_TABLES = [
     ("ppSignatureV2", "lib/src/protocol/proxy_protocol/parser.rs", r"const PROTOCOL_SIGNATURE_V2: \[u8; 12\] = \[([^\]]+)\];"),
     ("udpPp2Signature", "lib/src/protocol/udp/proxy_protocol.rs", r"const PP2_SIGNATURE: \[u8; 12\] = \[([^\]]+)\];"),
     ("h2SettingsAck", "lib/src/protocol/mux/serializer.rs", r"pub const SETTINGS_ACKNOWLEDGEMENT: \[u8; 9\] = \[([^\]]+)\];"),
+    ("h2PingAckHeader", "lib/src/protocol/mux/serializer.rs", r"pub const PING_ACKNOWLEDGEMENT_HEADER: \[u8; 9\] = \[([^\]]+)\];"),
 ]
 
 
